@@ -942,38 +942,56 @@ fn deliver_to_client(w: &mut World, ci: usize, d: Datagram<Meta>, _now: u64) {
         return;
     };
     let v5 = c.v5;
-    // ---- provenance -> which clause applies ----
-    let (mode, tag, cookies, chunk, seq_of) = match &d.meta.kind {
-        Kind::Resp { client, seq, authentic, bound, cookies, chunk, appended, tag } => {
-            let eligible = *client == c.idx && *seq == c.seq && *authentic && *bound && c.accepted_seq != Some(*seq);
-            let mut mode = if eligible { Mode::Genuine } else { Mode::Strict };
-            if eligible && *appended {
-                mode = Mode::Weak;
-            }
-            if eligible && let (Some(m), Some(orig)) = (&d.mutation, &d.original) {
-                let pe = wire::protected_end(orig, v5).unwrap_or(orig.len());
-                mode = match m {
-                    Mutation::BitFlip { pos, .. } | Mutation::ByteSet { pos, .. } => if *pos < pe { Mode::Strict } else { Mode::Weak },
-                    Mutation::Truncate { new_len, .. } => if *new_len < pe { Mode::Strict } else { Mode::Weak },
-                    Mutation::Extend { .. } => Mode::Weak,
-                };
-            }
-            let t: &'static str = if eligible {
-                *tag
-            } else if !*authentic {
-                "unauthenticated-server-answer"
-            } else if !*bound {
-                "authentic-but-not-bound-to-request"
-            } else if *seq != c.seq {
-                "authentic-answer-to-older-request"
-            } else {
-                "duplicate-of-accepted-answer"
-            };
-            (mode, t, cookies.clone(), chunk.clone(), Some(*seq))
+    // ---- ground truth from the DELIVERED bytes (never from the recipe that produced them) ----
+    // authentic  = the authenticator opens under THIS session's s2c key (own walker + real AEAD)
+    // bound      = the pending request's unique identifier is echoed in an authenticated or encrypted
+    //              field (and no such field contradicts it) and its origin timestamp / client cookie is echoed
+    // pending    = a request is outstanding and no answer to it has been accepted yet
+    let pv5 = wire::version(&bytes) == 5;
+    let opened = wire::open_auth(&bytes, pv5, c.sess.s2c_cipher().as_ref());
+    let outer = wire::walk(&bytes, pv5);
+    let auth_off = outer.iter().find(|e| e.ty == wire::EF_NTS_AUTH).map(|e| e.off);
+    let id_echoed = c.last_req.len() >= 48 && if pv5 { bytes[24..32] == c.last_req[24..32] } else { bytes[24..32] == c.last_req[40..48] };
+    let uid_ok = match (&opened, auth_off, wire::request_uid(&c.last_req)) {
+        (Some(pt), Some(ao), Some(uid)) => {
+            let mut uids: Vec<&Vec<u8>> = outer.iter().filter(|e| e.ty == wire::EF_UID && e.off < ao).map(|e| &e.body).collect();
+            uids.extend(pt.iter().filter(|e| e.ty == wire::EF_UID).map(|e| &e.body));
+            !uids.is_empty() && uids.iter().all(|u| u.len() >= uid.len() && u[..uid.len()] == uid[..])
         }
-        Kind::Forged { tag } => (Mode::Strict, *tag, vec![], None, None),
+        _ => false,
+    };
+    let pending = c.seq > 0 && c.accepted_seq != Some(c.seq);
+    let authentic = opened.is_some();
+    let eligible = authentic && uid_ok && id_echoed && pending;
+    let cookies: Vec<Vec<u8>> = opened.as_ref().map(|pt| pt.iter().filter(|e| e.ty == wire::EF_COOKIE).map(|e| e.body.clone()).collect()).unwrap_or_default();
+    let chunk: Option<Vec<u8>> = match auth_off {
+        Some(ao) if pv5 => outer.iter().find(|e| e.ty == wire::EF_REFID_RESP && e.off < ao).map(|e| e.body.clone()),
+        _ => None,
+    };
+    let (plain_genuine, tag): (bool, &'static str) = match &d.meta.kind {
+        Kind::Resp { client, seq, appended, tag, .. } => (*client == c.idx && *seq == c.seq && !*appended && d.mutation.is_none(), *tag),
+        Kind::Forged { tag } => (false, *tag),
         _ => return,
     };
+    let mode = if !eligible {
+        Mode::Strict
+    } else if plain_genuine {
+        Mode::Genuine
+    } else {
+        // authentic and bound by its bytes although it did not come straight from the key holder
+        // (damaged outside the authenticated region, fields appended, byte-identical copy, ...)
+        Mode::Weak
+    };
+    let why = if eligible {
+        "authentic-and-bound"
+    } else if !authentic {
+        "not-authentic"
+    } else if !(uid_ok && id_echoed) {
+        "authentic-but-not-bound-to-pending-request"
+    } else {
+        "no-request-pending"
+    };
+    let seq_of = Some(c.seq);
     let recv_ts = c.clock.now().unwrap();
     let before = view(c);
     let (m0, u0) = c.spy.counts();
@@ -995,7 +1013,7 @@ fn deliver_to_client(w: &mut World, ci: usize, d: Datagram<Meta>, _now: u64) {
     let accepted = m1 > m0;
     let mutation = d.mutation.clone();
     ev!(
-        "client{} recv prov={tag} mode={mode:?} len={} mut={:?} accepted={accepted} actions={} diff=[{}]",
+        "client{} recv prov={tag} {why} mode={mode:?} len={} mut={:?} accepted={accepted} actions={} diff=[{}]",
         c.idx,
         bytes.len(),
         mutation,
@@ -1014,7 +1032,7 @@ fn deliver_to_client(w: &mut World, ci: usize, d: Datagram<Meta>, _now: u64) {
                 "C07",
                 "unauthenticated-datagram-has-no-effect",
                 before == after && a.n == 0 && m0 == m1 && u0 == u1,
-                "prov={tag} shape={shape} v5={v5} mutation={mutation:?}: changed [{}] actions(reset={} demobilize={} n={}) measurements+{} usable-calls+{}",
+                "prov={tag} why={why} shape={shape} v5={v5} mutation={mutation:?}: changed [{}] actions(reset={} demobilize={} n={}) measurements+{} usable-calls+{}",
                 diff(&before, &after),
                 a.reset,
                 a.demobilize,
@@ -1051,9 +1069,9 @@ fn deliver_to_client(w: &mut World, ci: usize, d: Datagram<Meta>, _now: u64) {
                     after.stash.iter().map(|x| hex(x)).collect::<Vec<_>>(),
                     model.iter().map(|x| hex(x)).collect::<Vec<_>>()
                 );
-                if mode == Mode::Weak {
-                    let orig = d.original.as_ref().unwrap_or(&d.bytes);
-                    let oh = Hdr::parse(orig).unwrap();
+                {
+                    // the header is authenticated: the measurement must carry exactly its timestamps
+                    let oh = Hdr::parse(&bytes).unwrap();
                     let mo = c.spy.measurement(m0);
                     let mi = c.spy.measurement(m0 + 1);
                     check!(
@@ -1062,7 +1080,9 @@ fn deliver_to_client(w: &mut World, ci: usize, d: Datagram<Meta>, _now: u64) {
                         ts_to_fixed(mo.receiver_ts) == oh.recv && ts_to_fixed(mi.sender_ts) == oh.xmit,
                         "prov={tag} mutation={mutation:?}: measurement timestamps differ from the authenticated original's"
                     );
-                    probe("weak-clause-accepted");
+                    if mode == Mode::Weak {
+                        probe("weak-clause-accepted");
+                    }
                 }
                 check_bloom_change(&before.bloom, &after.bloom, chunk.as_deref(), "accepted response");
                 probe("genuine-response-accepted");
